@@ -498,10 +498,11 @@ func getFuncKindAndReceiver(funcDecl *ast.FuncDecl) (TestOnlyKind, string) {
 // ExtractReceiverType extracts the receiver type name from a receiver type expression
 // Examples: *MyStruct -> MyStruct, MyStruct -> MyStruct
 func ExtractReceiverType(expr ast.Expr) string {
-	switch t := expr.(type) {
+	// The receiver type may be parenthesised: (*MyStruct), *(MyStruct), (MyStruct)
+	switch t := ast.Unparen(expr).(type) {
 	case *ast.StarExpr:
 		// Pointer receiver: *MyStruct
-		if ident, ok := t.X.(*ast.Ident); ok {
+		if ident, ok := ast.Unparen(t.X).(*ast.Ident); ok {
 			return ident.Name
 		}
 	case *ast.Ident:
